@@ -65,15 +65,16 @@ Proof. exact resolve_pass_only. Qed.
 Print Assumptions C30_passthrough_only.
 
 (* POST /lfs/download: object bytes are sent (DStream, status 200) only if they are
-   the complete stored object (no read error), their SHA-256 is the one the caller
+   the complete body of the FIRST GetObject call for the key (no read error; [get]
+   lists the outcomes of successive calls, the code makes one), their SHA-256 is the one the caller
    supplied (modulo surrounding white space and letter case), their length is the
    size the caller supplied, the bucket is the proxy's bucket and the size is within
    the proxy's blob ceiling.  Every other response constructor carries no object
    bytes. *)
 Theorem C30_download_sound :
-  forall (sha256hex : bytes -> bytes) (presign_ok : bool) (get : bytes -> s3obj) cfg q body hdr,
+  forall (sha256hex : bytes -> bytes) (presign_ok : bool) (get : bytes -> list s3obj) cfg q body hdr,
   download sha256hex presign_ok get cfg q = DStream body hdr ->
-  get (trim_space (q_key q)) = GBody body false /\
+  first_attempt get (trim_space (q_key q)) = GBody body false /\
   sha256hex body = norm (q_sha q) /\
   zlen body = q_size q /\
   hdr = norm (q_sha q) /\
@@ -84,7 +85,7 @@ Proof. exact download_sound. Qed.
 Print Assumptions C30_download_sound.
 
 Theorem C30_presign_echo :
-  forall (sha256hex : bytes -> bytes) (presign_ok : bool) (get : bytes -> s3obj) cfg q sha size,
+  forall (sha256hex : bytes -> bytes) (presign_ok : bool) (get : bytes -> list s3obj) cfg q sha size,
   download sha256hex presign_ok get cfg q = DPresign sha size -> sha = norm (q_sha q) /\ size = q_size q.
 Proof. exact presign_echo. Qed.
 Print Assumptions C30_presign_echo.
@@ -92,7 +93,8 @@ Print Assumptions C30_presign_echo.
 (* non-vacuity, with a toy digest (the length as one byte): a matching blob is
    returned; a tampered, an oversized and an unknown-algorithm one are refused; the
    md5-without-checksum envelope falls back to the sha256 field; the download
-   serves the exact object and refuses a shorter one with the same digest. *)
+   serves the exact object, answers 502 when the first read fails even if a second
+   attempt would succeed, and refuses a longer object. *)
 Example C30_nonvacuous :
   let digest := fun (a : alg) (b : bytes) => [zlen b + match a with ASha256 => 100 | _ => 0 end] in
   let env := mkEnv 1 [98] [107] 3 [103] [] [] [] [] [] [] in
@@ -105,7 +107,7 @@ Example C30_nonvacuous :
   unwrap digest (fun _ => Some (mkEnv 1 [98] [107] 3 [103] [] (codes "sha1"%string) [] [] [] [])) (fun _ => FOk [1; 2; 3]) true value = RErr EAlg /\
   let sha := repeat 97 64 in
   let q := mkReq true true true true [98] [107] [] true true sha [] 3 in
-  download (fun _ => sha) true (fun _ => GBody [1; 2; 3] false) (mkCfg [98] 0 false) q = DStream [1; 2; 3] sha /\
-  download (fun _ => sha) true (fun _ => GBody [1; 2] false) (mkCfg [98] 0 false) q = DError 502 (codes "integrity_failure"%string) /\
-  download (fun _ => sha) true (fun _ => GBody [1; 2; 3; 4] false) (mkCfg [98] 0 false) q = DError 502 (codes "integrity_failure"%string).
+  download (fun _ => sha) true (fun _ => [GBody [1; 2; 3] false]) (mkCfg [98] 0 false) q = DStream [1; 2; 3] sha /\
+  download (fun _ => sha) true (fun _ => [GBody [1; 2] true; GBody [1; 2; 3] false]) (mkCfg [98] 0 false) q = DError 502 (codes "s3_get_failed"%string) /\
+  download (fun _ => sha) true (fun _ => [GBody [1; 2; 3; 4] false]) (mkCfg [98] 0 false) q = DError 502 (codes "integrity_failure"%string).
 Proof. vm_compute. repeat split. Qed.
